@@ -1251,3 +1251,16 @@ fn vm_basic() {
         InterpreterResult::Value(Value::Quantity(Quantity::from_scalar(42.0 + 1.0)))
     );
 }
+
+#[cfg(feature = "verif-hooks")]
+impl Vm {
+    /// Read-only access for the verification harness: value in a global stack slot.
+    pub fn verif_stack_value(&self, idx: usize) -> Option<&Value> {
+        self.stack.get(idx)
+    }
+
+    /// Read-only access for the verification harness: unsimplified last result.
+    pub fn verif_last_result(&self) -> Option<&Value> {
+        self.last_result.as_ref()
+    }
+}
